@@ -415,6 +415,10 @@ def render_staging(prog):
             form = f"(eval-when-compile (import hyv_hit) (hyv_hit.hit {s1}))"
         elif kind == "eac":
             form = f"(hyv_hit.val {i} (eval-and-compile (import hyv_hit) (hyv_hit.hit {s1}) (+ 40 {i})))"
+        elif kind == "eac0":
+            form = f"(hyv_hit.val {i} (eval-and-compile (import hyv_hit) (hyv_hit.hit {s1}) 0))"
+        elif kind == "domac0":
+            form = f"(hyv_hit.val {i} (do-mac (import hyv_hit) (hyv_hit.hit {s1}) 0))"
         else:
             form = f"(hyv_hit.val {i} (do-mac (import hyv_hit) (hyv_hit.hit {s1}) '(do (hyv_hit.hit {s2}) (+ 50 {i}))))"
         if where == "top":
@@ -440,8 +444,8 @@ def main_c16(run):
     run.add_tlc(r, f"HyStaging: every module of <= {mf} staging forms x placement x call count")
     progs = r.ex("PROG")
     run.log(f"TLC: {len(progs)} programs")
-    if len(progs) > (160 if q else 2500):
-        progs = rng.sample(progs, 160 if q else 2500)
+    if len(progs) > (240 if q else 3500):
+        progs = rng.sample(progs, 240 if q else 3500)
     d = run.work / "staging"
     d.mkdir()
     (d / "hyv_hit.py").write_text(HIT_PY)
@@ -491,9 +495,9 @@ def main_c16(run):
                                       f"ran {got} times, expected {cnt}; module:\n{text}", {"prog": rec, "text": text})
             # values: eval-and-compile returns its last value, do-mac's result is compiled and evaluated
             for i, (kind, (where, runs)) in enumerate(rec["prog"], 1):
-                if kind in ("eac", "domac") and hist != "compile":
+                if kind != "ewc" and hist != "compile":
                     vals = [l for l in o["lines"] if l.startswith(f"v{i}=")]
-                    wantv = [f"v{i}={(40 if kind == 'eac' else 50) + i}"] * runs
+                    wantv = [f"v{i}={rec['values'][i - 1]}"] * runs
                     if vals != wantv:
                         ok = False
                         run.violation(f"value:{key}", f"{hist}: form {i} ({kind}) produced values {vals}, expected {wantv}",
